@@ -70,7 +70,13 @@ pub fn base_alphabet(seed: u64, hard: Option<&str>) -> Vec<Inp> {
                 if it.next()? != "str64" {
                     return None;
                 }
-                Some((it.next()?.parse().ok()?, it.next()?.as_bytes().to_vec()))
+                let e = it.next()?.parse().ok()?;
+                let d = it.next()?.as_bytes().to_vec();
+                // only the GAPS entries (`gap`); the LIMB-EDGE entries of the same file are value-family members only
+                if it.next()? != "gap" {
+                    return None;
+                }
+                Some((e, d))
             })
             .collect();
         // the longest ones have the widest zero runs (limbs [B, 0 x 7, A] for k = 512)
